@@ -22,8 +22,10 @@ from pyvc.values import Ext, PyRaise, Unsupported, VBound, VClass, VDict, VList,
 from .ast_common import AstFactory, base_modules
 
 AST = "pymoca.ast"
-CONTENT_DICTS = ("symbols", "imports", "functions")
-CONTENT_LISTS = ("extends", "equations", "initial_equations", "statements", "initial_statements")
+# content fields of a class: these, plus EVERY other dict- or list-valued field the real Class constructor creates (discovered from
+# the object it returns, see mk_class) -- whatever a class can hold has to survive the merge
+CONTENT_DICTS = ["symbols", "imports", "functions"]
+CONTENT_LISTS = ["extends", "equations", "initial_equations", "statements", "initial_statements"]
 
 
 class Item(Ext):
@@ -72,7 +74,7 @@ def merge_view(a, b):
     for d in CONTENT_DICTS:
         keys = [k for k, _ in oa[d]]
         own[d] = tuple(oa[d]) + tuple((k, v) for k, v in ob[d] if k not in keys)
-    for l in CONTENT_LISTS + ("comment",):
+    for l in CONTENT_LISTS + ["comment"]:
         own[l] = oa[l] if oa[l] else ob[l]
     own["type"] = ob["type"] if oa["type"] in ("", "package") and ob["type"] else oa["type"]
     kids = {}
@@ -99,6 +101,18 @@ def parents_ok(c):
 
 def mk_class(A, name, typ, content, children):
     c = A.new("Class", name=name, type=typ)
+    for k, v in c.fields.items():
+        if isinstance(v, VDict) and k != "classes" and k not in CONTENT_DICTS:
+            CONTENT_DICTS.append(k)
+        if isinstance(v, VList) and k not in CONTENT_LISTS:
+            CONTENT_LISTS.append(k)
+    # a field this harness has no entry for is filled like `extends` (lists) / `symbols` (dicts)
+    content = dict(content)
+    for l in CONTENT_LISTS:
+        content.setdefault(l, content.get("extends", []))
+    for d in CONTENT_DICTS:
+        if d != "imports":
+            content.setdefault(d, content.get("symbols", []))
     for d in CONTENT_DICTS:
         for key in content.get(d, []):
             if d == "imports":
